@@ -971,6 +971,34 @@ pub fn build(full_name: &str, level: u8) -> Option<Scenario> {
                 Action::Restart(3),
                 Action::DropAll,
             ];
+            if n.contains("-catchup") {
+                // node 3 was down (nothing lost) during both changes and is caught up by one append
+                // carrying both entries (and the leader's commit index); nothing else reaches it
+                s.prefix = vec![
+                    Action::Timeout(1),
+                    Action::Settle,
+                    Action::Crash(3, 9),
+                    Action::ProposeCc(1, 0),
+                    Action::Settle,
+                    Action::ProposeCc(1, 1),
+                    Action::Settle,
+                    Action::DropAll,
+                    Action::Restart(3),
+                    Action::Tick(1),
+                    Action::Settle0(1),
+                    Action::Deliver(1, 3),
+                    Action::Settle0(3),
+                    Action::Deliver(3, 1),
+                    Action::Settle0(1),
+                    Action::Deliver(1, 3),
+                    Action::Settle0(3),
+                    Action::Deliver(3, 1),
+                    Action::Settle0(1),
+                    Action::Deliver(1, 3),
+                    Action::Settle0(3),
+                    Action::DropAll,
+                ];
+            }
             s.timeoutable = vec![3, 4];
             if l == 0 {
                 // level 0 also scripts node 4's election (term 2, votes of 5 and 2; node 1 has
@@ -1334,6 +1362,28 @@ pub fn build(full_name: &str, level: u8) -> Option<Scenario> {
                     Action::Settle,
                     Action::Crash(3, 9),
                     Action::ProposeCc(1, 0),
+                    Action::Settle,
+                    Action::Propose(1, 0),
+                    Action::Settle,
+                    Action::Compact(1),
+                    Action::DropAll,
+                    Action::Restart(3),
+                ];
+            }
+            if n.contains("-shrink") {
+                // while node 3 is down the group replaces voter 2 by voter 4 (explicit joint
+                // change, then leave): the snapshot's configuration {1,3,4} no longer lists a
+                // peer node 3 still tracks
+                s = Scenario::new(name, 4);
+                s.voters = vec![1, 2, 3];
+                s.cc_menu = vec![CcSpec::V2(2, vec![(0, 4), (1, 2)]), CcSpec::V2(0, vec![])];
+                s.prefix = vec![
+                    Action::Timeout(1),
+                    Action::Settle,
+                    Action::Crash(3, 9),
+                    Action::ProposeCc(1, 0),
+                    Action::Settle,
+                    Action::ProposeCc(1, 1),
                     Action::Settle,
                     Action::Propose(1, 0),
                     Action::Settle,
